@@ -186,7 +186,7 @@ public:
   //!
   //! \remarks This function is thread-safe.
   [[nodiscard]]
-  ASMJIT_INLINE_NODEBUG bool is_initialized() const noexcept { return _impl->block_size == 0; }
+  ASMJIT_INLINE_NODEBUG bool is_initialized() const noexcept { return _impl->block_size != 0; }
 
   //! Free all allocated memory - makes all pointers returned by `alloc()` invalid.
   //!
